@@ -306,7 +306,14 @@ fn encode<'t, T>(
                             pattern
                         })
                         .collect();
-                    grouping.push_str(pattern, &encodings.join("|"));
+                    if encodings.is_empty() {
+                        // An alternation with no branches (a combinator of no patterns) is the
+                        // union of nothing and so matches nothing, not the empty path.
+                        grouping.push_str(pattern, NEVER_EXPRESSION);
+                    }
+                    else {
+                        grouping.push_str(pattern, &encodings.join("|"));
+                    }
                 },
                 Concatenation(_) => unreachable!(),
                 Repetition(repetition) => {
